@@ -138,6 +138,13 @@ class Check:
         if key in self._vh:
             return self._vh[key]
         hdir = os.path.join(VERIF, "harness")
+        if REPO != "/repo":
+            # checking another tree (e.g. a scratch worktree with a seeded change): build from a private copy
+            # of the harness so that the shared harness/go.mod keeps pointing at /repo
+            priv = self.path("harness")
+            if not os.path.isdir(priv):
+                shutil.copytree(hdir, priv)
+            hdir = priv
         write_gomod(hdir)
         out = self.path("vh-" + key)
         env = dict(os.environ)
@@ -366,11 +373,18 @@ def tail(s, n):
 
 
 def load_known():
+    res = []
     p = os.path.join(VERIF, "known_findings.json")
-    if not os.path.exists(p):
-        return []
-    with open(p) as f:
-        return json.load(f).get("findings", [])
+    if os.path.exists(p):
+        with open(p) as f:
+            res += json.load(f).get("findings", [])
+    d = os.path.join(VERIF, "known_findings.d")
+    if os.path.isdir(d):
+        for fn in sorted(os.listdir(d)):
+            if fn.endswith(".json"):
+                with open(os.path.join(d, fn)) as f:
+                    res += json.load(f).get("findings", [])
+    return res
 
 
 def write_gomod(hdir):
